@@ -153,6 +153,8 @@ class Item:
             d = data.get("x%d_%d" % (self.k, j))
             if d is None:
                 return "no image"
+            if any(it["k"] == "z" and it["n"] > (1 << 20) for it in d["items"]):
+                return "object image of absurd size"
             img, rel = ilparse.data_image(d)
             sb = L.set_bits(img)
             run = (sb[0], len(sb)) if sb and sb == list(range(sb[0], sb[0] + len(sb))) else ("scattered", tuple(sb))
@@ -572,7 +574,14 @@ def flow_b(ctx, batches):
             res = ctx.tlc("Trace_Layout", cfg, workers=1, env={"TRACE": tp}, timeout=2400, heap="4g")
             if res.rc != 0:
                 rej = [l for l in res.out.splitlines() if "REJECT" in l]
-                ctx.violation("trace:addmember-step" if rej and '"member"' in rej[0] else "trace:tagend",
+                kind = "unknown"
+                if rej:
+                    try:
+                        evj = json.loads(rej[0][rej[0].index("{"):].rstrip('"').replace('\\"', '"'))["event"]
+                        kind = "addmember-step" if evj.get("e") == "member" else "tagend-" + str(evj.get("kind"))
+                    except (ValueError, KeyError):
+                        pass
+                ctx.violation("trace:" + kind,
                               "an H4 event of the real decl.c is not a step of Layout.tla's accumulator / declarative layout",
                               {"raise": r, "reject": rej[:1], "tlc": res.out[-1500:]})
             total += len(ch)
